@@ -277,3 +277,28 @@ def m5_union_sub_objects(ctx) -> None:
     else:
         ctx.violation("M5", cp.node, "CartesianProduct.get_sub_objects must range over compositions(n, len(subobjs), min_sizes, max_sizes) and pair sizes with providers",
                       construct="CartesianProduct.get_sub_objects")
+
+
+def m4b_verification_levels(ctx) -> None:
+    """VerificationRule fills its two caches level by level: the level computed in each
+    iteration of `while n >= len(cache)` is len(cache), whatever n was asked for."""
+    from ..core import pattern as PT
+    P = ctx.P
+    for mname, cache, getter in (("_ensure_level", "terms_cache", "get_terms"), ("_ensure_level_objects", "objects_cache", "get_objects")):
+        m = P.need_method("VerificationRule", mname, own=True)
+        f = m.node
+        ctx.analysed(m)
+        loops = [w for w in walk_local(f) if isinstance(w, ast.While)]
+        calls = [c for c in walk_local(f) if isinstance(c, ast.Call) and norm(c.func) == f"self.strategy.{getter}"]
+        apps = [c for c in walk_local(f) if isinstance(c, ast.Call) and norm(c.func) == f"self.{cache}.append"]
+        ok_shape = len(loops) == 1 and len(calls) == 1 and len(apps) == 1 and norm(loops[0].test) in (f"n >= len(self.{cache})", f"len(self.{cache}) <= n")
+        if not ok_shape:
+            ctx.violation("M4", f, f"VerificationRule.{mname} must append one level per iteration of `while n >= len(self.{cache})`, computed by strategy.{getter}",
+                          construct=f"VerificationRule.{mname} shape")
+            continue
+        args = [norm(a) for a in calls[0].args]
+        if args == ["self.comb_class", f"len(self.{cache})"]:
+            ctx.ok("M4", f"VerificationRule.{mname}: the level computed is len(self.{cache}), the first missing one")
+        else:
+            ctx.violation("M4", calls[0], f"VerificationRule.{mname} computes level `{args[1] if len(args) > 1 else '?'}` and appends it as level len(self.{cache}): when a larger "
+                          "size is requested before a smaller one the cache holds the wrong level at every index below it")
